@@ -430,9 +430,9 @@ def self_writes(f: FuncInfo, n: Node) -> List[str]:
     return out
 
 
-def _atomic_append(ck: Check, prog: Program, interp: Interp) -> None:
+def _atomic_append(ck: Check, prog: Program, interp: Interp, only: Tuple[str, ...] = ()) -> None:
     found = 0
-    for cq in (V20 + '.BatchRequest', V20 + '.BatchResponse'):
+    for cq in (only or (V20 + '.BatchRequest', V20 + '.BatchResponse')):
         ci = prog.cls(cq)
         for mname in ('append', 'extend', '_add_ids'):
             f = ci.methods.get(mname)
@@ -447,13 +447,36 @@ def _atomic_append(ck: Check, prog: Program, interp: Interp) -> None:
             cfg = res.cfg
             raising = [cfg.nodes[nid] for nid, rs in res.node_raises.items() if any(c == IDENTITY for (c, _o) in rs)]
             bad: List[Tuple[Node, str, Node]] = []
+
+            def writes_state(m: FuncInfo, seen: Set[str]) -> bool:
+                # does own method m (transitively through own-method calls) write the batch's state?
+                if m.qualname in seen:
+                    return False
+                seen.add(m.qualname)
+                mcfg = CFG(m, prog)
+                for mn in mcfg.stmt_nodes():
+                    if self_writes(m, mn):
+                        return True
+                    for c_ in calls_in(mn):
+                        if isinstance(c_.func, ast.Attribute) and dotted(c_.func.value) == 'self':
+                            m2 = prog.find_method(ci, c_.func.attr)
+                            if m2 is not None and writes_state(m2, seen):
+                                return True
+                return False
             for w in cfg.stmt_nodes():
                 ws = self_writes(f, w)
+                if not ws:
+                    for c_ in calls_in(w):
+                        if isinstance(c_.func, ast.Attribute) and dotted(c_.func.value) == 'self':
+                            m2 = prog.find_method(ci, c_.func.attr)
+                            if m2 is not None and m2 is not f and writes_state(m2, set()):
+                                ws = [f'self.{c_.func.attr}(…) (writes the batch)']
                 if not ws:
                     continue
                 reach = cfg.reachable(w)
                 for r in raising:
-                    if r.id in reach and r is not w or (r is w and w.id in cfg.reachable(w)):
+                    on_cycle = any(e_.label != 'exc' and w.id in cfg.reachable(e_.dst) for e_ in cfg.succ[w.id])
+                    if r.id in reach and r is not w or (r is w and on_cycle):
                         bad.append((w, ws[0], r))
             ck.ob('ATOMIC-APPEND', f'{short(f.qualname)}: no write to the batch precedes a possible IdentityError', not bad,
                   sample={'raising_nodes': [n.line for n in raising]})
@@ -469,7 +492,7 @@ def _atomic_append(ck: Check, prog: Program, interp: Interp) -> None:
             if mname in ('append', 'extend') and not raising:
                 ck.finding('ATOMIC-APPEND', f.qualname, 'no duplicate-id check', f.module.rel, f.node.lineno,
                            f'{short(f.qualname)} can no longer raise IdentityError: duplicate ids are accepted')
-    ck.require('ATOMIC-APPEND', 'batch mutation operations', found, 4)
+    ck.require('ATOMIC-APPEND', 'batch mutation operations', found, 2 if only else 4)
 
 
 def _empty_batch_request(ck: Check, prog: Program) -> None:
